@@ -155,4 +155,26 @@ def expectedQrs (h : Hints) (recs : List Rec) : List GQR :=
     | .qr g _ => if (project h g).anySome then some (project h g) else none
     | _ => none
 
+/-! ### malformed messages -/
+
+/-- `read_generic_mm`: the stored malformed message with its indexes resolved -/
+def resolveM (b : Blk) (m : MMRec) : GMM :=
+  let d : MMD := (m.mdi.bind fun i => b.mmd[i]?).getD {}
+  { ts := m.ts
+    clientIp := m.cai.bind fun i => b.ip[i]?
+    clientPort := m.cport
+    serverIp := d.sai.bind fun i => b.ip[i]?
+    serverPort := d.port
+    transportFlags := d.tf
+    payload := d.payload }
+
+def GMM.anySome (g : GMM) : Bool :=
+  g.ts.isSome || g.clientIp.isSome || g.clientPort.isSome || (g.serverIp.isSome || g.serverPort.isSome || g.transportFlags.isSome || g.payload.isSome)
+
+/-- malformed messages have no per-member hints: with the hint on, every non-empty message is read back unchanged -/
+def expectedMms (h : Hints) (recs : List Rec) : List GMM :=
+  recs.filterMap fun r => match r with
+    | .mm g _ => if on h.odh OtherDataHintsMask.malformed_messages && g.anySome then some g else none
+    | _ => none
+
 end CdnsVerif.Model.Builder
